@@ -18,7 +18,7 @@
 //	  => st=<status|-> rd=<eof|rst:<code>|…> wr=<open|stop:<code>> h=<-|ok m= proto= host= uri= cl= h= tr= b=<n> rerr=<0|1> t=<hdrs>> | …
 //	cli lim=<L> | e= q= d= te= f <field>… [t <field>…] | …
 //	  => stop=<open|stop:<code>> r=<E|ok code= cl= h= tr= b=<n> rerr=<0|1> t=<hdrs>|unsupported> | …
-//	conc | at=<k> gz=<0|1> m=<hex> host=<hex> path=<hex> x=<hex> | …   => ok <field>… | E:<class> | …
+//	conc | at=<k> gz=<0|1> [ef=<1|2>] m=<hex> host=<hex> path=<hex> x=<hex> | …   => ok <field>… | E:<class> | …
 //	rsp | id=<hex> tr=<0|1> a=<act>,<act>,… | …   => o=<out>,… w=<frame>,… end=<eof|rst:<code>|…> | …
 //
 // Round 5 (error paths and the state they leave behind):
@@ -30,6 +30,8 @@
 //     (a retry loop / a wrapper that reads on / draining on cleanup) and report `again=<bytes>`; what
 //     the raw peer saw of that exchange is then printed as `*` (the unread payload of a refused frame is
 //     parsed as frames by the later reads, with whatever consequences for the stream).
+//   - conc: ef=1 / ef=2 makes the request's first / second write to its stream (frame header / header
+//     block) fail; the requests after it go through the same requestWriter.
 //   - rsp: a real http3.Server faces a bare QUIC peer that sends GET requests; the handler of request k
 //     performs the k-th script: wh<code> WriteHeader, w<n> Write of n bytes, fl FlushError, dl1 / dl0
 //     SetWriteDeadline in the past / none, st set the trailer field. o = what each call returned
@@ -669,6 +671,7 @@ func runClient(lim, rr int, msgs []*msg) []string {
 // ---------------------------------------------------------------- conc
 
 type creq struct {
+	ef           int // 0: none; k: the k-th write of the request to its stream fails
 	at           int
 	gz           bool
 	m, host, path string
@@ -679,6 +682,7 @@ func runConc(rs []creq) []string {
 	reqs := make([]*http.Request, len(rs))
 	gz := make([]bool, len(rs))
 	at := make([]int, len(rs))
+	failAt := make([]int, len(rs))
 	bad := make([]bool, len(rs))
 	for i, c := range rs {
 		req, err := http.NewRequest(c.m, "https://"+c.host+c.path, nil)
@@ -687,9 +691,9 @@ func runConc(rs []creq) []string {
 			req, _ = http.NewRequest("GET", "https://invalid.example/", nil)
 		}
 		req.Header["X-Id"] = []string{c.x}
-		reqs[i], gz[i], at[i] = req, c.gz, c.at
+		reqs[i], gz[i], at[i], failAt[i] = req, c.gz, c.at, c.ef-1
 	}
-	fields, errs := http3.VerifInterleavedWriteHeaders(reqs, gz, at, 2*time.Millisecond)
+	fields, errs := http3.VerifInterleavedWriteHeadersFail(reqs, gz, at, failAt, 2*time.Millisecond)
 	out := make([]string, len(rs))
 	for i := range rs {
 		switch {
@@ -1129,7 +1133,14 @@ func (rn *runner) Exec(op string) string {
 			if err != nil || at < 0 {
 				return "bad-op"
 			}
-			rs = append(rs, creq{at: at, gz: a["gz"] == "1", m: unhx(a["m"]), host: unhx(a["host"]), path: unhx(a["path"]), x: unhx(a["x"])})
+			ef := 0
+			if v, ok := a["ef"]; ok {
+				ef, err = strconv.Atoi(v)
+				if err != nil || ef < 0 || ef > 2 {
+					return "bad-op"
+				}
+			}
+			rs = append(rs, creq{ef: ef, at: at, gz: a["gz"] == "1", m: unhx(a["m"]), host: unhx(a["host"]), path: unhx(a["path"]), x: unhx(a["x"])})
 		}
 		if len(rs) > 4 {
 			return "bad-op"
@@ -1258,7 +1269,12 @@ func (rn *runner) GenOp(r *vh.Rand, i int) string {
 			if r.Chance(30) {
 				gz = 1
 			}
-			fmt.Fprintf(&sb, " | at=%d gz=%d m=%s host=%s path=%s x=%s", r.Intn(3), gz,
+			ef := ""
+			if r.Chance(18) {
+				// the write of the frame header / of the header block to the stream fails
+				ef = fmt.Sprintf(" ef=%d", 1+r.Intn(2))
+			}
+			fmt.Fprintf(&sb, " | at=%d gz=%d%s m=%s host=%s path=%s x=%s", r.Intn(3), gz, ef,
 				hx([]string{"GET", "POST", "HEAD", "DELETE"}[r.Intn(4)]), hx(concHosts[r.Intn(len(concHosts))]),
 				hx(concPaths[r.Intn(len(concPaths))]), hx(fmt.Sprintf("token-of-request-%d-%s", k, randBytes(r, r.Intn(30), false))))
 		}
